@@ -2,7 +2,7 @@
 
 use crate::engine::*;
 use crate::flow::*;
-use crate::props::c04::run_program;
+use crate::props::c04::{run_program, run_program_bounded};
 
 fn nt_c05(m: &Model, classes: &std::collections::HashSet<&'static str>) -> bool {
     let called_twice = m.fn_calls.values().any(|c| *c >= 2);
@@ -20,10 +20,41 @@ fn case_large(t: &mut Tape, st: &mut Stats) -> Verdict {
     run_program(&p, t, st, "C05", nt_c05)
 }
 
+
+/// (deep-recursion) a function that calls itself from inside its own for-in loop 257..400 levels deep (hand-built
+/// shapes, same reference interpreter): every level's loop is still open while the deeper ones run, and each must
+/// resume where it was when the call returns.
+fn case_deep(t: &mut Tape, st: &mut Stats) -> Verdict {
+    let n = 257 + t.below(144) as u32;
+    let two_level_loop = t.chance(1, 3);
+    let returns_value = t.flip();
+    let outer_repeats = t.chance(1, 3);
+    let mut inner = vec![
+        Stmt::If(vec![(Cond::Tick { neg: false, key: "deep".into(), n }, vec![Stmt::Call { out: None, f: 0, args: vec![Expr::Lit("d".into())] }])], None),
+        Stmt::Emit(1, vec![Expr::Var("x".into())]),
+    ];
+    if two_level_loop {
+        inner = vec![Stmt::ForIn("y".into(), Expr::Var("arr0".into()), inner), Stmt::Emit(3, vec![Expr::Var("y".into())])];
+    }
+    let mut body = vec![Stmt::ForIn("x".into(), Expr::Var("arr0".into()), inner), Stmt::Emit(2, vec![Expr::Lit("after-loop".into())])];
+    if returns_value {
+        body.push(Stmt::Return(Some(Expr::Var("x".into()))));
+    }
+    let call = Stmt::Call { out: if returns_value { Some("top".into()) } else { None }, f: 0, args: vec![Expr::Lit("t".into())] };
+    let mut main = if outer_repeats { vec![Stmt::ForIn("o".into(), Expr::Var("arr1".into()), vec![call, Stmt::Emit(4, vec![Expr::Var("o".into())])])] } else { vec![call] };
+    main.push(Stmt::Emit(9, vec![Expr::Lit("done".into())]));
+    let p = Program { arrays: vec![vec!["a".into()], vec!["p".into(), "q".into()]], fns: vec![FnDef { name: "f0".into(), scoped: false, arity: 1, body }], main };
+    let v = run_program_bounded(&p, t, st, "C05", |_, _| true, 30_000);
+    if matches!(v, Verdict::Pass(_)) {
+        st.class("self-recursion-through-a-for-in-loop-deeper-than-256");
+    }
+    v
+}
+
 pub fn property() -> Property {
     Property {
         id: "C05",
-        rule: "C04's programs plus 1..4 function definitions (scoped or not, fixed arity, any keyword spelling) and calls as statements, output-assigning statements and in condition position (if f a / while p), returns at any depth inside loops and branches, nested and self-recursive calls, repeated calls after early returns; emit trace and final variables compared with the tree-walking interpreter extended with call frames (arguments bound to 1..n, return unwinds, no loop state outside the frame, scoped isolation). Non-trivial: a function called >= 2 times with an early return from inside a loop or branch, or call depth >= 2; distinct by script text",
+        rule: "C04's programs plus 1..4 function definitions (scoped or not, fixed arity, any keyword spelling) and calls as statements, output-assigning statements and in condition position (if f a / while p), returns at any depth inside loops and branches, nested and self-recursive calls, repeated calls after early returns; (deep-recursion) a function calling itself from inside its own for-in loop 257..400 levels deep, in a few hand-built shapes (one or two loop levels, with or without a returned value, called once or from a loop); emit trace and final variables compared with the tree-walking interpreter extended with call frames (arguments bound to 1..n, return unwinds, no loop state outside the frame, scoped isolation). Non-trivial: a function called >= 2 times with an early return from inside a loop or branch, or call depth >= 2; distinct by script text",
         assumptions: &[
             "programs reaching a corner the property leaves open are discarded and counted: reading an output variable of a <scope> call that ended without a value while it held a value before; output variables of value-less calls made inside a function invoked in condition position; numeric argument variables after an intervening call; a body assigning its caller's pending output variable",
             "condition-position call arguments are plain words (the wrappers' re-serialisation is C09's subject)",
@@ -46,6 +77,15 @@ pub fn property() -> Property {
                 },
                 case: case_large,
                 min_classes: &[],
+            },
+            Section {
+                name: "deep-recursion",
+                plan: |t| match t {
+                    Tier::Quick => Plan::Random { cases: 160, max_len: 60 },
+                    Tier::Thorough => Plan::Random { cases: 4_000, max_len: 60 },
+                },
+                case: case_deep,
+                min_classes: &[("self-recursion-through-a-for-in-loop-deeper-than-256", 100)],
             },
         ],
         probes: vec![],
